@@ -121,6 +121,10 @@ def loadRecording (file : List Frame) (sr : Nat) (duration : Rat) : Except AErr 
 def recordingOf (n fsr : Nat) (te : Rat) : Nat × Rat :=
   ((truncZ (fsr * te)).toNat, (n : Rat) / fsr / te)
 
+/-- what a time-expansion factor does to a loaded array: same frames, times and step divided -/
+def scaleTime (te : Rat) (a : TimeArray) : TimeArray :=
+  ⟨a.frames, a.times.map (· / te), a.step / te⟩
+
 /-! ### `resample` -/
 
 /-- a coordinate with its advertised `step` attribute -/
@@ -149,6 +153,28 @@ structure SpecAxes where
   freq : Axis
   deriving DecidableEq, Repr
 
+/-- `nperseg = int(window_size * samplerate)` with `samplerate = 1 / step` -/
+def stftNperseg (step w : Rat) : Int := truncZ (w * (1 / step))
+
+/-- `noverlap = int((window_size - hop_size) * samplerate)` -/
+def stftNoverlap (step w h : Rat) : Int := truncZ ((w - h) * (1 / step))
+
+/-- number of segments scipy's `stft` produces (`boundary="zeros"`, `padded=True`) for an input
+    of `len` samples: extend by `nps//2` on both sides, pad to a whole number of hops -/
+def stftCount (len : Nat) (nps noverlap : Int) : Nat :=
+  let nstep := nps - noverlap
+  let ext := (len : Int) + 2 * (nps / 2)
+  let nadd := ((-(ext - nps)) % nstep) % nps
+  ((ext + nadd - nps) / nstep + 1).toNat
+
+/-- segment times `t0 + k·nstep/fs` (`fs = 1/step`) -/
+def stftTimes (t0 step : Rat) (nstep : Int) (cnt : Nat) : List Rat :=
+  (List.range cnt).map fun (k : Nat) => t0 + (k : Rat) * (nstep : Rat) / (1 / step)
+
+/-- `rfftfreq(nps, 1/fs)`: `k·fs/nps`, `k ≤ nps//2` -/
+def stftFreqs (step : Rat) (nps : Int) : List Rat :=
+  (List.range (nps / 2 + 1).toNat).map fun (k : Nat) => (k : Rat) * (1 / step) / (nps : Rat)
+
 /-- axes of `compute_spectrogram(audio, w, h)` for an audio array of `len` samples whose time
     axis starts at `t0` and advertises `step`.
     `samplerate = 1/step`, `nperseg = int(w·samplerate)`, `noverlap = int((w−h)·samplerate)`;
@@ -157,25 +183,20 @@ structure SpecAxes where
     `k·(nperseg − noverlap)/fs` for each segment and `k·fs/nperseg`, `k ≤ nperseg//2`.
     `pinned = true`: the code of the pinned tree, which advertises the *requested* hop `h`;
     `pinned = false`: the repaired code (fix C15-1), which advertises the realised hop
-    `(nperseg − noverlap)/samplerate`. -/
+    `(nperseg − noverlap)/samplerate` (= `(nperseg − noverlap)·step`). -/
 def stftAxesGen (pinned : Bool) (len : Nat) (t0 step w h : Rat) : Except AErr SpecAxes :=
-  let fs : Rat := 1 / step
-  let nperseg := truncZ (w * fs)
-  let noverlap := truncZ ((w - h) * fs)
+  let nperseg := stftNperseg step w
+  let noverlap := stftNoverlap step w h
   if len = 0 then .error .value
   else if nperseg < 1 then .error .value
   else
     let nps := min nperseg (len : Int)          -- scipy `_triage_segments`
     if noverlap ≥ nps then .error .value
     else
-      let nstep := nps - noverlap
-      let ext := (len : Int) + 2 * (nps / 2)     -- boundary extension
-      let nadd := ((-(ext - nps)) % nstep) % nps   -- padding
-      let cnt := (ext + nadd - nps) / nstep + 1
-      let times := (List.range cnt.toNat).map fun (k : Nat) => t0 + (k : Rat) * (nstep : Rat) / fs
-      let freqs := (List.range (nps / 2 + 1).toNat).map fun (k : Nat) => (k : Rat) * fs / (nps : Rat)
-      let adv : Rat := if pinned then h else ((nperseg - noverlap : Int) : Rat) / fs
-      .ok ⟨nperseg, noverlap, ⟨times, adv⟩, ⟨freqs, fs / (nperseg : Rat)⟩⟩
+      .ok ⟨nperseg, noverlap,
+           ⟨stftTimes t0 step (nps - noverlap) (stftCount len nps noverlap),
+            if pinned then h else ((nperseg - noverlap : Int) : Rat) / (1 / step)⟩,
+           ⟨stftFreqs step nps, 1 / step / (nperseg : Rat)⟩⟩
 
 def stftAxes := stftAxesGen false
 def stftAxesPinned := stftAxesGen true
